@@ -210,6 +210,71 @@ func zzC17_braces() {
 	}
 }
 
+// one goroutine changes the route set (adds a pattern, removes one, replaces the default handler) while another
+// dispatches a request: exactly one handler runs, a registered handler only for a pattern that matches the whole
+// path, and the outcome is the one of the route set before or after the change
+func zzC17_concurrent() {
+	r := NewRouter()
+	var invoked []string
+	mk := func(name string) Handler {
+		return HandlerFunc(func(w ResponseWriter, m *Message) { invoked = append(invoked, name) })
+	}
+	base := []string{"/a", "/a/{id}"}
+	for _, p := range base {
+		_ = r.Handle(p, mk(p))
+	}
+	r.DefaultHandle(mk("<default>"))
+	path := []string{"/a", "/a/b", "/c"}[symChoose("path", 3)]
+	change := symChoose("change", 4)
+	after := append([]string(nil), base...)
+	defAfter := "<default>"
+	done := 0
+	go func() {
+		switch change {
+		case 0: // a longer, more specific pattern appears
+			_ = r.Handle("/a/b", mk("/a/b"))
+			after = append(after, "/a/b")
+		case 1: // a pattern disappears
+			_ = r.HandleRemove("/a/{id}")
+			after = []string{"/a"}
+		case 2: // the default handler is replaced
+			r.DefaultHandle(mk("<default2>"))
+			defAfter = "<default2>"
+		case 3: // a pattern's handler is replaced
+			_ = r.Handle("/a", mk("/a"))
+		}
+		done++
+	}()
+	go func() {
+		req := &Message{Message: pool.NewMessage(context.Background()), RouteParams: new(RouteParams)}
+		_ = req.SetPath(path)
+		r.ServeCOAP(&zzRW{}, req)
+		done++
+	}()
+	symWaitUntil(func() bool { return done == 2 })
+	symCover("joined")
+	symAssert(len(invoked) == 1, "dispatch invokes exactly one handler")
+	if len(invoked) != 1 {
+		return
+	}
+	pick := func(set []string, def string) string {
+		best, name := -1, def
+		for _, p := range set {
+			if ok, _ := zzMatch(p, path); ok && len(p) > best {
+				best, name = len(p), p
+			}
+		}
+		return name
+	}
+	got := invoked[0]
+	if got != "<default>" && got != "<default2>" {
+		ok, _ := zzMatch(got, path)
+		symAssert(ok, "a registered handler is only invoked for a pattern that matches the entire path")
+	}
+	symAssert(got == pick(base, "<default>") || got == pick(after, defAfter) || got == pick(after, "<default>") || got == pick(base, defAfter),
+		"the outcome is the one of the route set before or after the concurrent change")
+}
+
 func zzC17_selftest() {
 	r := NewRouter()
 	hit := 0
